@@ -35,7 +35,17 @@ const PANIC: &str = "<panic>";
 /// maps, struct fields) are sorted, `[ … ]` and `( … )` keep their order. Hash-backed collections
 /// iterate in an order that differs between two equal values; everything else is data.
 pub fn canon_debug(s: &str) -> String {
-    fn seq(b: &[char], mut i: usize, close: Option<char>) -> Option<(Vec<String>, usize)> {
+    canon_debug_with(s, false)
+}
+
+/// The same with EVERY group sorted (`[ … ]`, `( … )` too) and the top level as well: two renderings
+/// that are equal under this form differ in order only.
+pub fn unordered(s: &str) -> String {
+    canon_debug_with(s, true)
+}
+
+fn canon_debug_with(s: &str, all: bool) -> String {
+    fn seq(b: &[char], mut i: usize, close: Option<char>, all: bool) -> Option<(Vec<String>, usize)> {
         let mut items = vec![];
         let mut cur = String::new();
         while i < b.len() {
@@ -64,8 +74,8 @@ pub fn canon_debug(s: &str) -> String {
                         '[' => ']',
                         _ => '}',
                     };
-                    let (mut kids, j) = seq(b, i + 1, Some(cl))?;
-                    if c == '{' {
+                    let (mut kids, j) = seq(b, i + 1, Some(cl), all)?;
+                    if c == '{' || all {
                         kids.sort();
                     }
                     cur.push(c);
@@ -102,8 +112,13 @@ pub fn canon_debug(s: &str) -> String {
         Some((items, i))
     }
     let chars: Vec<char> = s.chars().collect();
-    match seq(&chars, 0, None) {
-        Some((items, _)) => items.join(", "),
+    match seq(&chars, 0, None, all) {
+        Some((mut items, _)) => {
+            if all {
+                items.sort();
+            }
+            items.join(", ")
+        }
         None => s.to_string(),
     }
 }
@@ -511,24 +526,50 @@ pub fn first_difference(a: &[Answer], b: &[Answer]) -> Option<(usize, String, St
     a.iter().zip(b.iter()).enumerate().find(|(_, (x, y))| x != y).map(|(k, (x, y))| (k, x.0.clone(), x.1.clone(), x.2.clone(), y.2.clone()))
 }
 
-/// Is `answer` to question `k` one that the ORIGINAL value gives too when it is built again in
-/// memory? Hash-backed sets (`SmolSet` beyond its inline size, `HashSet`) iterate in an order that
-/// differs between two equal values, and a few methods show it (`to_scim_value` of a multi-valued
-/// set with a single-valued SCIM form returns "the first" element). Such an answer is not a
-/// difference between stored and in-memory: the original is rebuilt from its own values through
-/// the in-memory constructors (`from_value_iter`, never a decoder) up to `tries` times, and if any
-/// copy gives `answer`, the question is order-dependent for this value.
-pub fn original_also_answers(orig: &ValueSet, args: &ProbeArgs, k: usize, answer: &str, tries: usize) -> bool {
+/// Is the difference on question `k` (`a` = the original's answer, `b` = the reloaded value's) one
+/// that in-memory constructions of the ORIGINAL value show among themselves? Hash-backed sets
+/// (`SmolSet` beyond its inline size, `HashSet`) iterate in an order that differs between two equal
+/// values, and a few methods show it (`as_indextype_iter` lists the elements in that order;
+/// `to_scim_value` of a multi-valued set with a single-valued SCIM form returns "the first"). Such
+/// an answer is not a difference between stored and in-memory. The original is rebuilt from its
+/// own values through the in-memory constructors (`from_value_iter`, never a decoder) up to `tries`
+/// times; the difference is construction-dependent iff
+///   * some copy gives exactly `b`, or
+///   * `a` and `b` differ in order only (`unordered`) and some copy gives an answer other than `a`
+///     (the question demonstrably depends on the construction of this value).
+pub fn construction_dependent(orig: &ValueSet, args: &ProbeArgs, k: usize, a: &str, b: &str, tries: usize) -> bool {
     if k == usize::MAX {
         return false;
     }
+    let order_only = unordered(a) == unordered(b);
+    let want = vs_canon(orig);
     for _ in 0..tries {
-        let Some(copy) = guard(|| kanidmd_lib::valueset::from_value_iter(orig.to_value_iter()).ok()).flatten() else {
+        let Some(copy) = rebuild(orig, &args.other).filter(|c| vs_canon(c) == want) else {
+            // no faithful in-memory reconstruction: nothing to compare with — the difference stands
             return false;
         };
-        if battery(&copy, args, Some(k)).get(k).map(|a| a.2 == answer).unwrap_or(false) {
-            return true;
+        match battery(&copy, args, Some(k)).get(k) {
+            Some(ans) if ans.2 == b => return true,
+            Some(ans) if order_only && ans.2 != a => return true,
+            _ => {}
         }
     }
     false
+}
+
+/// The original value built again in memory (fresh hash state), never through a decoder: from its
+/// own values; an empty set from the second set's values, cleared.
+fn rebuild(orig: &ValueSet, other: &ValueSet) -> Option<ValueSet> {
+    guard(|| {
+        if orig.len() > 0 {
+            kanidmd_lib::valueset::from_value_iter(orig.to_value_iter()).ok()
+        } else if struct_name(orig) == struct_name(other) {
+            let mut c = kanidmd_lib::valueset::from_value_iter(other.to_value_iter()).ok()?;
+            c.clear();
+            Some(c)
+        } else {
+            None
+        }
+    })
+    .flatten()
 }
